@@ -20,7 +20,7 @@ func TestRegressJitterAcrossTimestampWrap(t *testing.T) {
 	ic.BindRTCPWriter(sink)
 	defer func() {
 		gate.Open()
-		_ = ic.Close()
+		kit.BoundedClose(ic.Close)
 	}()
 	src := &kit.ByteSource{}
 	r := ic.BindRemoteStream(&interceptor.StreamInfo{SSRC: 1, ClockRate: 90000}, src)
